@@ -71,17 +71,18 @@ Proof. exact safe_dec_cursor. Qed.
         and the three Tight checks (bits 1..3) in place, UltraZip and Tight rectangles can no longer leave an
         object either, whatever the server sends: an out-of-bounds access of the repaired mirror can only
         originate in a TRLE / ZRLE rectangle; those are covered by the full theorem [C08_no_oob_write] below. *)
-Definition fixes_0_3 (s : cst) : Prop := fixed s 0 = true /\ fixed s 1 = true /\ fixed s 2 = true /\ fixed s 3 = true /\ fixed s 9 = true.
+Definition fixes_0_3_9_10 (s : cst) : Prop :=
+  fixed s 0 = true /\ fixed s 1 = true /\ fixed s 2 = true /\ fixed s 3 = true /\ fixed s 9 = true /\ fixed s 10 = true.
 
-Theorem C08_no_oob_write_fixes_0_3 : forall s ts c,
-  st_ok s -> fixes_0_3 s -> handle_msg s ts = Oob c ->
-  exists s' x y w h enc ts', st_ok s' /\ fixes_0_3 s' /\ 0 <= x /\ 0 <= y /\ 0 <= w /\ 0 <= h /\
+Theorem C08_no_oob_write_fixes_0_3_9_10_9_10 : forall s ts c,
+  st_ok s -> fixes_0_3_9_10 s -> handle_msg s ts = Oob c ->
+  exists s' x y w h enc ts', st_ok s' /\ fixes_0_3_9_10 s' /\ 0 <= x /\ 0 <= y /\ 0 <= w /\ 0 <= h /\
     In enc [cE_TRLE; cE_ZRLE; cE_ZYWRLE] /\ rect_body x y w h enc s' ts' = Oob c.
 Proof. exact no_oob_fixed. Qed.
 
 Theorem C08_no_oob_rect_fixed : forall x y w h enc,
   0 <= x -> 0 <= y -> 0 <= w -> 0 <= h -> ~ In enc [cE_TRLE; cE_ZRLE; cE_ZYWRLE] ->
-  forall s ts, st_ok s -> fixes_0_3 s -> match rect_body x y w h enc s ts with Oob _ => False | _ => True end.
+  forall s ts, st_ok s -> fixes_0_3_9_10 s -> match rect_body x y w h enc s ts with Oob _ => False | _ => True end.
 Proof.
   intros x y w h enc Hx Hy Hw Hh Hn s ts Hs Hf.
   pose proof (rect_body_safe_fixed x y w h enc Hx Hy Hw Hh Hn s ts Hs Hf) as H. destruct (rect_body x y w h enc s ts); auto.
@@ -96,21 +97,21 @@ Qed.
 
 Theorem C08_no_oob_tight_fixed : forall rx ry rw rh s ts,
   0 <= rx -> 0 <= ry -> 0 <= rw -> 0 <= rh -> st_ok s ->
-  fixed s 1 = true -> fixed s 2 = true -> fixed s 3 = true -> rx + rw <= c_w s -> ry + rh <= c_h s ->
+  fixed s 1 = true -> fixed s 2 = true -> fixed s 3 = true -> fixed s 10 = true -> rx + rw <= c_w s -> ry + rh <= c_h s ->
   match dec_tight rx ry rw rh s ts with Oob _ => False | _ => True end.
 Proof.
-  intros rx ry rw rh s ts Hx Hy Hw Hh Hs F1 F2 F3 HW HH.
-  pose proof (safe_dec_tight rx ry rw rh Hx Hy Hw Hh s ts Hs (conj F1 (conj F2 (conj F3 (conj HW HH))))) as H.
+  intros rx ry rw rh s ts Hx Hy Hw Hh Hs F1 F2 F3 F10 HW HH.
+  pose proof (safe_dec_tight rx ry rw rh Hx Hy Hw Hh s ts Hs (conj F1 (conj F2 (conj F3 (conj F10 (conj HW HH)))))) as H.
   destruct (dec_tight rx ry rw rh s ts); auto.
 Qed.
 
 (* ---- THE WHOLE REPAIRED MIRROR (fix bits 0..6 and 8 = library commits dd06ff7, 0870444, 01fc326, 6de7bdd, d9a5962,
-        112b5b7, a7a3a60, 281f33a, and bit 9 = a41e88e; the baseline [init_state] = HEAD has them all): no server input makes
+        112b5b7, a7a3a60, 281f33a, bit 9 = a41e88e - the baseline [init_state] = HEAD has them - plus bit 10 = notes/fix_C08_11.diff, proposed): no server input makes
         HandleRFBServerMessage's mirror leave an object - no exception list.  (Bit 7 = d211e4c only selects the
         CPIXEL width of 16-bpp clients; the statement holds with and without it.) *)
 Definition fixes_all (s : cst) : Prop :=
   fixed s 0 = true /\ fixed s 1 = true /\ fixed s 2 = true /\ fixed s 3 = true /\
-  fixed s 4 = true /\ fixed s 5 = true /\ fixed s 6 = true /\ fixed s 8 = true /\ fixed s 9 = true.
+  fixed s 4 = true /\ fixed s 5 = true /\ fixed s 6 = true /\ fixed s 8 = true /\ fixed s 9 = true /\ fixed s 10 = true.
 
 Theorem C08_no_oob_write : forall s ts c, st_ok s -> fixes_all s -> handle_msg s ts <> Oob c.
 Proof.
@@ -142,9 +143,18 @@ Proof.
   pose proof (safe_dec_trle x y w h Hx Hy s ts Hs (conj F4 (conj HW HH))) as H. rewrite E in H. exact H.
 Qed.
 
-Example C08_no_oob_write_nonvacuous : st_ok (init_state f888 255 16 16) /\ fixes_all (init_state f888 255 16 16).
+Example C08_no_oob_write_nonvacuous :
+  st_ok (set_fix (init_state f888 255 16 16) 2047) /\ fixes_all (set_fix (init_state f888 255 16 16) 2047).
 Proof.
   split; [split; [apply init_state_wf; lia|unfold bypp_pos; cbn; lia]|]. repeat split; reflexivity.
+Qed.
+
+(* bit 10 (notes/fix_C08_11.diff, finding C08-F31) is NOT in the library yet: on the baseline flow the Tight gradient
+   filter writes one pixel past the framebuffer for a zero-width rectangle at the right edge *)
+Theorem C08_tight_gradient_w0_refuted : exists s ts c, st_ok s /\ c_fix s = 1023 /\ handle_msg s ts = Oob c.
+Proof.
+  exists (init_state f888 255 8 4), w_tightgrad_w0, 79.
+  split; [split; [apply init_state_wf; lia|unfold bypp_pos; cbn; lia]|split; [reflexivity|exact w_tightgrad_w0_oob]].
 Qed.
 
 (* before a41e88e (fix bit 9, finding C08-F29) a fresh client crashed on an UltraZip rectangle whose width makes
@@ -156,7 +166,8 @@ Proof.
 Qed.
 
 (* the baseline state of the mirror satisfies the hypotheses *)
-Example C08_no_oob_fixed_nonvacuous : st_ok (init_state f888 255 16 16) /\ fixes_0_3 (init_state f888 255 16 16).
+Example C08_no_oob_fixed_nonvacuous :
+  st_ok (set_fix (init_state f888 255 16 16) 2047) /\ fixes_0_3_9_10 (set_fix (init_state f888 255 16 16) 2047).
 Proof.
   split; [split; [apply init_state_wf; lia|unfold bypp_pos; cbn; lia]|]. repeat split; reflexivity.
 Qed.
